@@ -36,6 +36,8 @@ def jobs(tier):
                functions=[fn_id(NS.NaiveBayesScorer.score), fn_id(NS.NaiveBayesScorer.score_final)],
                stubs=["math.log inside nb_scorer replaced by a stub that records its argument and returns a symbolic finite value", "model replaced by a stub returning symbolic log-probabilities"],
                site="NaiveBayesScorer")]
+    out.append(Job("C14.SCORE-HIST", HP, "ob_score_hist", timeout=600, bounds="three consecutive scorings on one scorer object with permuted traces",
+                   functions=[fn_id(NS.NaiveBayesScorer.score), fn_id(NS.NaiveBayesScorer.score_final)], stubs=["math.log stub", "order-sensitive model stub"], site="NaiveBayesScorer"))
     out += [j for j in search_jobs("C14", tier) if "STREAM" in j.name]
     return out
 
